@@ -114,6 +114,10 @@ class ExprGen:
         if r < 0.88:
             f = rng.choice(["math.sqrt", "np.sqrt", "math.sin", "np.cos", "math.tanh", "math.log", "np.log10", "np.sinh", "abs", "np.abs"])
             self.feats.add("table_function")
+            if f in ("math.sin", "np.cos"):
+                # (bounded argument: the cosine of a sub-expression of 5e6 - sinh(1 + e*e) squared - is decided by the last
+                # bits of that sub-expression, which no two correct evaluations share; seen in the thorough tier, seed 16)
+                return f"{f}(1.0 + {a} / (1.0 + {a} * {a}))"
             return f"{f}(1.0 + {a} * {a})"
         if r < 0.94:
             f = rng.choice(["math.exp", "np.exp", "math.floor", "math.log2", "np.log1p", "math.expm1"])
